@@ -155,6 +155,7 @@ package bfe_http2
 //@   requires sc != nil && n >= 0
 //@   frame Check pure
 //@   frame writeFrame keeps sc.inflow.n, st.inflow.n
+//@   assume[the_connection_state_is_consistent_when_the_frame_is_queued] at "sc.writeFrame(frameWriteMsg{" :: inv37(sc) && wfPool(embed(sc, "writeSched"))
 //@   note scheduling a WINDOW_UPDATE frame (writeFrame) is assumed not to touch the two inbound windows it announces
 //@   modifies *
 //@   ensures[connection_window_reopened_by_n] st == nil ==> sc.inflow.n == old(sc.inflow.n) + n
